@@ -162,6 +162,35 @@ leave_stale_errors(void)
 	BN_CTX_free(ctx);
 }
 
+/*
+ * E <priv> <queue>: crypto_dh_generate_pub, but made from an exit handler which
+ * was registered before the module was first used - it runs after whatever the
+ * module (and OpenSSL's users) registered for exit, and must still work.  The
+ * answer line is printed from the handler, i.e. last.
+ */
+static int e_pending;
+static uint8_t e_priv[CRYPTO_DH_PRIVLEN];
+static char e_queue[4096];
+
+static void
+last_use(void)
+{
+	void * f2;
+	uint8_t * pub;
+	int rc;
+
+	if (!e_pending)
+		return;
+	pub = outbuf(CRYPTO_DH_PUBLEN, &f2);
+	parse_queue(e_queue);
+	rc = crypto_dh_generate_pub(pub, e_priv);
+	printf("R %d", rc);
+	put_or_dash(rc == 0, pub, CRYPTO_DH_PUBLEN);
+	printf(" %zu\n", Q.calls);
+	fflush(stdout);
+	free(f2);
+}
+
 int
 main(void)
 {
@@ -170,6 +199,7 @@ main(void)
 	char opc;
 
 	vh_stdout_linebuf();
+	atexit(last_use);	/* before the first use of the module */
 	while (vh_readline(&L, stdin)) {
 		const char * op;
 
@@ -186,7 +216,18 @@ main(void)
 		opc = (char)toupper((unsigned char)op[0]);
 		if (stale)
 			leave_stale_errors();
-		if (opc == 'G') {
+		if (opc == 'E') {
+			void * f1;
+			uint8_t * priv = tok_exact(&L, 1, CRYPTO_DH_PRIVLEN, &f1);
+
+			if (e_pending || strlen(vh_tok(&L, 2)) >= sizeof(e_queue))
+				vh_die("bad E line");
+			memcpy(e_priv, priv, CRYPTO_DH_PRIVLEN);
+			strcpy(e_queue, vh_tok(&L, 2));
+			e_pending = 1;
+			free(f1);
+			continue;	/* answered at exit */
+		} else if (opc == 'G') {
 			void * f1, * f2;
 			uint8_t * priv = tok_exact(&L, 1, CRYPTO_DH_PRIVLEN, &f1);
 			uint8_t * pub = outbuf(CRYPTO_DH_PUBLEN, &f2);
